@@ -185,6 +185,39 @@ func mgStmt(s ast.Stmt, ind string) string {
 			cases = append(cases, "("+mgExprs(cc.List)+", "+mgStmts(cc.Body, ind+"  ")+")")
 		}
 		return "SSwitch " + mgOptStmt(v.Init, ind) + " " + tag + " [\n" + ind + "  " + strings.Join(cases, ";\n"+ind+"  ") + "]"
+	case *ast.TypeSwitchStmt:
+		// switch x := e.(type) { case T1, T2: ... }   (also without the binding)
+		if v.Init == nil {
+			bind := "None"
+			var subject ast.Expr
+			switch a := v.Assign.(type) {
+			case *ast.AssignStmt:
+				if len(a.Lhs) == 1 && len(a.Rhs) == 1 {
+					if id, ok := a.Lhs[0].(*ast.Ident); ok {
+						bind = "(Some " + mgCoqString(id.Name) + ")"
+					}
+					if ta, ok := a.Rhs[0].(*ast.TypeAssertExpr); ok && ta.Type == nil {
+						subject = ta.X
+					}
+				}
+			case *ast.ExprStmt:
+				if ta, ok := a.X.(*ast.TypeAssertExpr); ok && ta.Type == nil {
+					subject = ta.X
+				}
+			}
+			if subject != nil {
+				var cases []string
+				for _, c := range v.Body.List {
+					cc := c.(*ast.CaseClause)
+					tys := make([]string, len(cc.List))
+					for i, t := range cc.List {
+						tys[i] = mgCoqString(typeText(t))
+					}
+					cases = append(cases, "("+mgList(tys)+", "+mgStmts(cc.Body, ind+"  ")+")")
+				}
+				return "STypeSwitch " + bind + " " + mgExpr(subject) + " [\n" + ind + "  " + strings.Join(cases, ";\n"+ind+"  ") + "]"
+			}
+		}
 	case *ast.ReturnStmt:
 		return "SReturn " + mgExprs(v.Results)
 	case *ast.ExprStmt:
